@@ -13,7 +13,9 @@ import (
 	"io"
 	"net"
 	"os"
+	"runtime"
 	"testing"
+	"time"
 
 	core "google.golang.org/grpc/credentials/alts/internal"
 	"google.golang.org/grpc/internal/zzverif/vlib"
@@ -47,9 +49,28 @@ type c52In struct {
 	segs []int // segment lengths; the last pattern element repeats
 	si   int
 	left int // rest of the current segment
+
+	empty int  // consecutive Read calls with an empty slice
+	stuck bool // the reader was cut off after c52EmptyMax of them
 }
 
+const (
+	c52EmptyMax = 10000
+	c52Watchdog = 15 * time.Second // real-time bound for one Read / Write call (hangs only)
+)
+
 func (c *c52In) Read(b []byte) (int, error) {
+	if len(b) == 0 {
+		// like a net.Conn: an empty read returns at once.  A reader that keeps asking for zero
+		// bytes makes no progress: after c52EmptyMax such calls in a row it is cut off.
+		c.empty++
+		if c.empty >= c52EmptyMax {
+			c.stuck = true
+			return 0, io.ErrNoProgress
+		}
+		return 0, nil
+	}
+	c.empty = 0
 	if len(c.wire) == 0 {
 		return 0, io.EOF
 	}
@@ -122,12 +143,19 @@ type c52Scenario struct {
 	Frame  int       `json:"frame"`  // negotiated frame size (0: default)
 	Proto  string    `json:"proto"`  // rekey | gcm
 	Seg    []int     `json:"seg"`    // segmentation pattern (last element repeats)
+	Fresh  bool      `json:"fresh"`  // start with an empty read-buffer pool
 	Left   int       `json:"left"`   // > 0: seals left before the writer's counter overflows
 	Steps  []c52Step `json:"steps"`
 	Salt   int       `json:"salt"`   // selects the byte inside a structural field
 }
 
 func c52Run(sc c52Scenario, id int, tr *vlib.Trace) {
+	if sc.Fresh {
+		// empty the package's read-buffer sync.Pool (two GC cycles) so that the read buffer of this
+		// scenario is really sized by the code under test
+		runtime.GC()
+		runtime.GC()
+	}
 	proto := c52Rekey
 	if sc.Proto == "gcm" {
 		proto = c52Gcm
@@ -215,12 +243,18 @@ func c52Run(sc c52Scenario, id int, tr *vlib.Trace) {
 		}
 		rc = c
 	}
+	abandoned := false
 	read := func(buf int) bool {
+		if abandoned {
+			return false
+		}
 		b := make([]byte, buf)
 		ev := map[string]any{"ev": "read", "buf": buf, "panic": ""}
 		var n int
 		var err error
-		func() {
+		done := make(chan struct{})
+		go func() {
+			defer close(done)
 			defer func() {
 				if x := recover(); x != nil {
 					ev["panic"] = fmt.Sprint(x)
@@ -229,6 +263,15 @@ func c52Run(sc c52Scenario, id int, tr *vlib.Trace) {
 			}()
 			n, err = rc.Read(b)
 		}()
+		select {
+		case <-done:
+		case <-time.After(c52Watchdog):
+			// Read never returned: the scenario's goroutine is abandoned
+			tr.Emit(map[string]any{"ev": "read", "buf": buf, "panic": "", "n": 0, "err": true, "eof": false, "runs": [][2]int{}, "stuck": true})
+			abandoned = true
+			return false
+		}
+		ev["stuck"] = in.stuck
 		// n is logged raw (a Read may claim more than len(b): the monitor judges that); the bytes
 		// recorded are what the caller's buffer really holds
 		ev["n"], ev["err"], ev["eof"], ev["runs"] = n, err != nil, err == io.EOF, c52Runs(b[:max(0, min(n, len(b)))])
@@ -248,7 +291,9 @@ func c52Run(sc c52Scenario, id int, tr *vlib.Trace) {
 			var ret int
 			var err error
 			pan := ""
-			func() {
+			wdone := make(chan struct{})
+			go func() {
+				defer close(wdone)
 				defer func() {
 					if x := recover(); x != nil {
 						pan = fmt.Sprint(x)
@@ -257,6 +302,12 @@ func c52Run(sc c52Scenario, id int, tr *vlib.Trace) {
 				}()
 				ret, err = w.Write(data)
 			}()
+			select {
+			case <-wdone:
+			case <-time.After(c52Watchdog):
+				tr.Emit(map[string]any{"ev": "write", "w": n, "ret": 0, "err": true, "panic": "", "stuck": true, "recs": []int{}})
+				return // Write never returned: the scenario is abandoned
+			}
 			if err == nil {
 				written += n
 			}
